@@ -79,9 +79,11 @@ let handle0 fields impl : string option * string list =
       (if iq + ifree < limit then [Printf.sprintf "permit-leak-queue-full %d queued + %d obtainable < limit %d after one gossip round onto a queue with %d free places" iq ifree limit room] else []) @
       (if iq + ifree > limit then [Printf.sprintf "permit-double-release %d queued + %d obtainable > limit %d" iq ifree limit] else []) in
     (Some m, mons)
-  | ["gossipdrain"; limit; targets; rounds; cap] ->
-    let limit = int_of_string limit and targets = int_of_string targets and rounds = int_of_string rounds and cap = int_of_string cap in
-    let (sem, _, (q, _, _)) = gossip_rounds code_fixed limit targets rounds (n_ 0) (n_ cap) (n_ 0, n_ 0, n_ 0) in
+  | ["gossipdrain"; limit; _targets; _rounds; cap; total] ->
+    (* total = number of gossip targets the implementation really iterated over (timing dependent: routing table); the
+       model is one pass over that many targets, which is what C16_gossip_round_conserves is about *)
+    let limit = int_of_string limit and total = int_of_string total and cap = int_of_string cap in
+    let (sem, _, (q, _, _)) = gossip_rounds code_fixed limit total 1 (n_ 0) (n_ cap) (n_ 0, n_ 0, n_ 0) in
     let per_item = int_nat (effective (Acquire :: offer code_fixed (SReply REmpty))) in
     let before = limit - int_n sem in
     let after = before + int_n q * per_item in
@@ -118,6 +120,23 @@ let handle0 fields impl : string option * string list =
       (if ifree > limit then [Printf.sprintf "permit-double-release inbound: %d slots obtainable, limit %d" ifree limit] else []) @
       (if iacc = 1 && outcome <> "no-permit" && imid <> "-" && int_of_string_opt imid <> Some (limit - 1)
        then [Printf.sprintf "inbound-accept-without-slot accepted but %s of %d slots still obtainable during the transfer" imid limit] else []) in
+    (Some m, mons)
+  | ["ostall"; limit; held0; _ver] ->
+    let limit = int_of_string limit and held0 = int_of_string held0 in
+    let m = match ostall_scenario false (n_ limit) (n_ held0) with
+      | Ok (during, after) -> Printf.sprintf "ok res=ok during=%d calls_during=0 after=%d calls=1" (int_n during) (int_n after)
+      | _ -> "panic" in
+    let iduring = ifield impl "during" and icd = ifield impl "calls_during" and iafter = ifield impl "after" and icalls = ifield impl "calls" in
+    (* observed order judged by the proved predicate: a Release (call seen / slot obtainable) while the transfer goroutine
+       is still dialling is a Release before the end of the transfer *)
+    let released_early = icd > 0 || iduring > limit - held0 - 1 in
+    let observed = if released_early then [PAcquire; PRelease; PGaveUp; PRelease] else [PAcquire; PGaveUp; PRelease] in
+    let mons =
+      (if starts impl "ok" && not (slot_covers false false observed) then
+         [Printf.sprintf "outbound-slot-free-during-transfer %d of %d slots obtainable (%d held by others), %d Release calls while the accepted transfer is still dialling" iduring limit held0 icd] else []) @
+      (if starts impl "ok" && iafter < limit - held0 then [Printf.sprintf "permit-leak-dial-failure %d of %d slots obtainable after quiescence" iafter (limit - held0)] else []) @
+      (if starts impl "ok" && iafter > limit - held0 then [Printf.sprintf "permit-double-release outbound: %d slots obtainable, expected %d" iafter (limit - held0)] else []) @
+      (if starts impl "ok" && icalls = 0 then ["permit-leak-dial-failure no Release call at all"] else []) in
     (Some m, mons)
   | ["stall"; limit; held0; _ver] ->
     let limit = int_of_string limit and held0 = int_of_string held0 in
